@@ -42,7 +42,7 @@ def main():
     prop = meta.get("property") or meta.get("breaks")
     if checks is None:
         checks = [prop]
-    name = os.path.basename(os.path.dirname(mdir)) + "-" + os.path.basename(mdir) if os.path.basename(mdir) in ("A", "B", "C", "D") else os.path.basename(mdir)
+    name = os.path.basename(os.path.dirname(mdir)) + "-" + os.path.basename(mdir) if os.path.basename(mdir) in ("A", "B", "C", "D", "E", "F") else os.path.basename(mdir)
     wt = "/tmp/seedwt/%s-%d" % (name, os.getpid())
     os.makedirs("/tmp/seedwt", exist_ok=True)
     out = {"mutant": mdir, "property": prop, "checks": {}}
@@ -91,7 +91,8 @@ def main():
         for c in checks:
             for t in tiers:
                 t0 = time.time()
-                rc, o = sh([os.path.join(VERIF, "check"), c, t], cwd=VERIF, env=dict(env, VERIF_NOFUZZ="1") if t == "thorough" and os.environ.get("SEED_FUZZ") is None else env, timeout=3000)
+                vdir = os.environ.get("SEED_SNAPSHOT") or VERIF  # a frozen copy of /verif (check, harness, known_findings.json)
+                rc, o = sh([os.path.join(vdir, "check"), c, t], cwd=vdir, env=dict(env, VERIF_NOFUZZ="1") if t == "thorough" and os.environ.get("SEED_FUZZ") is None else env, timeout=3000)
                 sigs = re.findall(r"^  signature: (.*)$", o, re.M)
                 out["checks"].setdefault(c, {})[t] = {"exit": rc, "detected": rc == 1, "wall_s": round(time.time() - t0, 1), "signatures": sigs[:6]}
                 if rc == 1:
